@@ -507,7 +507,7 @@ impl Gen {
             Kd::TRemoveReinsert => Op::new(kind).s(s).a(self.key(rng, sv, 80) as i64).b(val).c(rng.below(3) as i64),
             Kd::Par => {
                 let nd = *rng.pick(&[4usize, 12, 40, 120]);
-                Op::new(kind).s(s).t((s + 1) % self.n_slots).a(if rng.below(9) == 0 { 1000 + rng.below(2) as i64 } else { rng.below(48) as i64 }).b(rng.below(sv.len as u64 + 2) as i64).c(rng.below(1024) as i64).v((0..nd).map(|_| rng.below(1 << 16) as i64).collect())
+                Op::new(kind).s(s).t(if rng.below(6) == 0 { s } else { (s + 1) % self.n_slots }).a(if rng.below(9) == 0 { 1000 + rng.below(2) as i64 } else { rng.below(48) as i64 }).b(rng.below(sv.len as u64 + 2) as i64).c(rng.below(1024) as i64).v((0..nd).map(|_| rng.below(1 << 16) as i64).collect())
             }
             Kd::SerdeRoundTrip => Op::new(kind).s(s).a(rng.below(4) as i64).b(rng.below(400) as i64).c(rng.below(7) as i64),
             Kd::SerdeStream => {
